@@ -50,6 +50,7 @@ type FuncContract struct {
 	AssignsL []Expr
 	Invs     map[int][]*Clause
 	Decr     map[int]*Clause
+	Bounded  map[int]string // loop ordinal -> name of the bounded stand-in covering its termination
 	Inline   bool
 	Canaries []*Clause
 	File     string
@@ -72,13 +73,14 @@ type SpecParam struct {
 }
 
 type Lemma struct {
-	Name  string
-	Pkg   string
-	Props []string
-	Text  string
-	E     Expr
-	File  string
-	Line  int
+	Name     string
+	Pkg      string
+	Props    []string
+	Text     string
+	E        Expr
+	File     string
+	Line     int
+	MustFail bool
 }
 
 type Contracts struct {
@@ -94,7 +96,7 @@ func newContracts() *Contracts {
 }
 
 var clauseKeywords = map[string]bool{"func": true, "props": true, "requires": true, "ensures": true, "assigns": true,
-	"loop": true, "inline": true, "lemma": true, "pure": true, "ghost": true, "canary": true, "trusted": true}
+	"loop": true, "inline": true, "lemma": true, "pure": true, "ghost": true, "canary": true, "trusted": true, "canarylemma": true}
 
 func (cs *Contracts) parseFile(path, pkgPath string) error {
 	data, err := os.ReadFile(path)
@@ -157,7 +159,7 @@ func (cs *Contracts) parseFile(path, pkgPath string) error {
 		}
 		switch kw {
 		case "func":
-			cur = &FuncContract{Name: rest, Pkg: pkgPath, Invs: map[int][]*Clause{}, Decr: map[int]*Clause{}, File: path, Line: r.line}
+			cur = &FuncContract{Name: rest, Pkg: pkgPath, Invs: map[int][]*Clause{}, Decr: map[int]*Clause{}, Bounded: map[int]string{}, File: path, Line: r.line}
 			key := pkgPath + "." + rest
 			if _, dup := cs.Funcs[key]; dup {
 				return fmt.Errorf("%s:%d: duplicate contract for %s", path, r.line, rest)
@@ -228,6 +230,10 @@ func (cs *Contracts) parseFile(path, pkgPath string) error {
 			kind := fields[2]
 			idx := strings.Index(r.text, kind)
 			text := strings.TrimSpace(r.text[idx+len(kind):])
+			if kind == "bounded" {
+				cur.Bounded[n] = text
+				continue
+			}
 			c, err := mk(kind, text)
 			if err != nil {
 				return err
@@ -241,10 +247,12 @@ func (cs *Contracts) parseFile(path, pkgPath string) error {
 				cur.Invs[n] = append(cur.Invs[n], c)
 			case "decreases":
 				cur.Decr[n] = c
+			case "bounded":
+				cur.Bounded[n] = text
 			default:
 				return fmt.Errorf("%s:%d: unknown loop clause %q", path, r.line, kind)
 			}
-		case "lemma":
+		case "lemma", "canarylemma":
 			cur = nil
 			j := strings.Index(rest, ":")
 			if j < 0 {
@@ -256,7 +264,7 @@ func (cs *Contracts) parseFile(path, pkgPath string) error {
 			if err != nil {
 				return fmt.Errorf("%s:%d: %v in %q", path, r.line, err, text)
 			}
-			cs.Lemmas = append(cs.Lemmas, &Lemma{Name: head[0], Pkg: pkgPath, Props: head[1:], Text: text, E: e, File: path, Line: r.line})
+			cs.Lemmas = append(cs.Lemmas, &Lemma{Name: head[0], Pkg: pkgPath, Props: head[1:], Text: text, E: e, File: path, Line: r.line, MustFail: kw == "canarylemma"})
 		case "pure", "ghost":
 			cur = nil
 			sf, err := parseSpecFunc(kw, rest)
@@ -397,6 +405,7 @@ type (
 		Body   Expr
 	}
 	EOld  struct{ X Expr }
+	EPre  struct{ X Expr }
 	ECond struct{ C, A, B Expr }
 )
 
@@ -725,6 +734,18 @@ func (p *parser) primary() (Expr, error) {
 				return nil, err
 			}
 			return &EOld{x}, nil
+		case "pre":
+			if err := p.expect("("); err != nil {
+				return nil, err
+			}
+			x, err := p.expr(0)
+			if err != nil {
+				return nil, err
+			}
+			if err := p.expect(")"); err != nil {
+				return nil, err
+			}
+			return &EPre{x}, nil
 		}
 		if p.isOp("(") {
 			args, err := p.args()
